@@ -44,13 +44,22 @@ def ghist(h):
 def weight(h):
     return sum(len(json.dumps(o)) for o in h["ops"]) // 2 + 60 * len(h["rec"]) + sum(len(a) for a, _ in h["keccak"]) // 2
 
+def norm(h):
+    for k in ("ops", "steps", "mon", "keccak", "sign", "rec"):
+        if h.get(k) is None:
+            h[k] = []
+    for st in h["steps"]:
+        if st.get("outs") is None:
+            st["outs"] = []
+    return h
+
 def run_harness(ctx):
     rc, out, trace = core.harness_pkg(ctx, "processor", "^TestVerifProc$", timeout=3000)
     rows = [r for r in core.read_jsonl(trace) if r.get("k") == "hist"]
     if rc != 0 or not rows:
         ctx.problem("correspondence", "go harness processor", out[-1500:])
         return None
-    return rows
+    return [norm(r) for r in rows]
 
 def compare_with_model(ctx, rows, name):
     """returns list of (history index, first mismatching step) or None on machinery failure"""
@@ -162,7 +171,7 @@ def run_replay(ctx):
     if rc != 0 or not rows:
         ctx.problem("machinery", "go harness processor (replay)", out[-1500:])
         return None
-    return rows
+    return [norm(r) for r in rows]
 
 
 def pipeline(ctx, pid, extra_classes=()):
